@@ -141,7 +141,7 @@ def coq_request(method, case):
     st = "BEmpty"
     if any((not p["ctx"]) and p["loc"] == "body" for p in method["params"]):
         label = case["label"]
-        kind = label[5:] if label.startswith("body-") else ("malformed" if label.startswith("double-fault:") else "valid")
+        kind = label[5:].split("+")[0] if label.startswith("body-") else ("malformed" if label.startswith("double-fault:") else "valid")
         cls = BODY_STATE.get(kind, "unknown")
         if kind == "null" and any((not p["ctx"]) and p["loc"] == "body" and p["type"].startswith("[]") for p in method["params"]):
             cls = "unknown"      # JSON null decodes to a nil slice: whether that passes is the validator's business
